@@ -301,14 +301,18 @@ func describeObs(obs [6]string) string {
 // checkProgram runs one generated program through the model and otto and files
 // a mismatch when they disagree. It returns false when the case was discarded.
 func checkProgram(r *engine.Run, key string, p *js.Program) bool {
-	src := js.Render(p)
-	expG := js.Run(p, false, 0, stepBudget)
-	if expG.Budget {
-		r.Skip()
+	var src string
+	var expG, expE js.Result
+	if msg := guardModel(func() {
+		src = js.Render(p)
+		expG = js.Run(p, false, 0, stepBudget)
+		expE = js.Run(p, true, 0, stepBudget)
+	}); msg != "" {
+		// the generator left the modelled subset: an oracle failure, never a violation
+		r.HarnessError("reference model failed on case " + key + ": " + msg)
 		return false
 	}
-	expE := js.Run(p, true, 0, stepBudget)
-	if expE.Budget {
+	if expG.Budget || expE.Budget {
 		r.Skip()
 		return false
 	}
@@ -354,6 +358,17 @@ func checkProgram(r *engine.Run, key string, p *js.Program) bool {
 	}
 	r.Mismatch(m)
 	return true
+}
+
+// guardModel runs f and reports a Go panic of the reference model or renderer.
+func guardModel(f func()) (msg string) {
+	defer func() {
+		if p := recover(); p != nil {
+			msg = fmt.Sprint(p)
+		}
+	}()
+	f()
+	return ""
 }
 
 // selfCheck verifies harness invariants once per family run.
